@@ -249,6 +249,15 @@ BDICTS = [
 ]
 
 
+h5model_M = __import__("pyvc.h5model", fromlist=["OBJ_METHODS"]).OBJ_METHODS
+h5model_M[("Cfg14", "__getitem__")] = lambda interp, c, sec: interp.ctx.obj("Sec14", {"cfg": c, "sec": sec})
+h5model_M[("Cfg14", "__contains__")] = lambda interp, c, sec: True
+h5model_M[("Sec14", "get")] = lambda interp, s_, key, default=None: (
+    s_.fields["cfg"].fields["run_identifier"] if (s_.fields["sec"], key) == ("experiment", "run identifier") else default)
+h5model_M[("Sec14", "__getitem__")] = lambda interp, s_, key: h5model_M[("Sec14", "get")](interp, s_, key)
+h5model_M[("Sec14", "__contains__")] = lambda interp, s_, key: (s_.fields["sec"], key) == ("experiment", "run identifier")
+
+
 class BasinsRetrieve(Contract):
     """basins_retrieve(): every basin handed out (a) is not on the ignore list
     (cycle guard), (b) is of type 'file' only if local basins are allowed for
@@ -284,9 +293,12 @@ class BasinsRetrieve(Contract):
         allowed = ctx.bool("local_basins_allowed", inp=True)
         mid = ctx.str("measurement_identifier")
         self._g = NS(dict(ignored=list(ignored), allowed=allowed, mid=mid))
+        # the configuration may hold a run identifier, or not: what identifies the measurement for its basins is
+        # get_measurement_identifier() (which falls back to date / time / setup), not that key alone
+        cfg = ctx.obj("Cfg14", {"run_identifier": ctx.str("config_run_identifier")}, name="config")
         self_ = ctx.obj("RTDCBase", {"_basins_ignored": ignored, "_local_basins_allowed": allowed,
                                      "_meas_id": mid, "_bdicts": BDICTS, "path": "/data/this.rtdc",
-                                     "format": "hdf5"}, name="self")
+                                     "format": "hdf5", "config": cfg}, name="self")
         return {"self": self_}
 
     def ensures(self, ctx, old, a, result):
